@@ -10,15 +10,17 @@ FORMAT = ("script [cancel; dyn; n; T; t_0..t_(n-1); (op a b)*]: cancel bit0 = ca
           "2 each on a clone of the value used by the previous call, 3 two handles alternately; bits 4.. = mask of callers (bit 4+j: caller j) whose inner call is "
           "budget-hungry: until its completion every poll of it uses up the whole tokio cooperative budget of the polling task (harness only: property and "
           "model do not distinguish it); dyn bit0: 0 = fixed timeout T, 1 = per-request timeout t_i "
-          "for caller i; dyn bit1: the time unit of the script is the microsecond instead of the millisecond; a timeout >= 10^15 stands for Duration::MAX; "
+          "for caller i; dyn bit1: the time unit of the script is the microsecond instead of the millisecond; dyn bit2: every call is made on a service value of its own that is "
+          "dropped as soon as call() has returned the future (overrides the handle mode); a timeout >= 10^15 stands for Duration::MAX; "
           "op 1=Poll a 2=Drop a 3=Advance a 4=Complete a b(0 ok,1 err,2 panic) 5=Call a (build the future) 6=Advance a in one step (the harness does not "
-          "walk millisecond by millisecond). "
+          "walk millisecond by millisecond) 7=Ready a (pick caller a's service value and poll_ready it now; call() follows at a's first op 1/2/5; no trace entry). "
           "trace: per event [r; val; wake mask; inner-call states base 4 (0 none 1 running 2 finished 3 dropped)] with "
           "r: -1 no poll, 0 pending, 1 Ok, 2 Err(Inner), 3 Err(Timeout), 5 panicked, 9 nothing to poll")
 RULE = ("per caller a plan (first poll instant, optional Call before it, inner latency strictly below / exactly at / above the deadline or never, or completed "
         "before the first poll, ok/err/panic, prompt or late polls (also at/after the deadline with the result already there), optional cancellation) merged over "
         "1-4 (thorough: up to 6) concurrent callers with different per-request or one fixed timeout, both modes, both builder orders, four ways of reaching the service (fresh clone / "
-        "same value / clone of clone / two handles), inner calls that are ordinary or budget-hungry (every poll exhausts the cooperative budget; never completing, "
+        "same value / clone of clone / two handles / a value of its own dropped right after call()), poll_ready either immediately before call() or earlier "
+        "(op 7, up to the whole timeout earlier), inner calls that are ordinary or budget-hungry (every poll exhausts the cooperative budget; never completing, "
         "completing before / at / after the deadline), same-instant events in random order, in three scales: milliseconds up to 30 ms walked ms by ms; "
         "50 ms .. 1 h timeouts crossed by single clock jumps; microsecond unit with timeouts off the 1 ms timer tick (0, 1, 500, 999, 1001, 1500, 1900 us ...), "
         "polls inside the tick window; Duration::MAX and 3-year timeouts that never fire; plus uniformly random scripts in each scale; "
@@ -30,7 +32,13 @@ TRUSTED = ["tokio time::timeout (inner future polled before the timer), time::sl
            "'at the deadline' is therefore 'at that tick' for timeouts that are not whole milliseconds (model: deadline = tick_up; monitor: Pending or Timeout "
            "accepted between the deadline and its tick, Timeout before the deadline never)",
            "poll atomicity; the spawned task of non-cancel mode runs to quiescence after every script event"]
-ASSUMPTIONS = ["instants are whole multiples of the script's time unit (1 ms or 1 us)", "single-threaded deterministic executor: one poll at a time",
+ASSUMPTIONS = ["every poll of a call future is made with tokio cooperative budget available (the driver yields after every event). A caller whose OWN task budget is "
+               "exhausted (a sibling future in the same join!/FuturesUnordered used it up) gets Pending from tokio's timer / oneshot even at/after the deadline or with "
+               "the result there, followed by tokio's deferred wake-up and the answer at the next poll: no time passes, but model (C06_timeout_at_poll, "
+               "C06_result_at_poll) and monitor are about polls with budget",
+               "the tokio runtime (its timer and the spawned task of non-cancel mode) is alive for the whole call: a runtime shut down under a pending call makes "
+               "non-cancel mode answer Timeout early (lost inner task = sender dropped, the same path as an inner panic) and cancel mode panic",
+               "instants are whole multiples of the script's time unit (1 ms or 1 us)", "single-threaded deterministic executor: one poll at a time",
                "inner panics are outside the property (modelled and compared, not claimed)",
                "what the caller does with a call it cancels itself (drops the future) is outside the property (modelled and compared, not claimed)"]
 # scripts on which the REAL code violates the property (none known)
@@ -269,6 +277,16 @@ def corpus():
         [112, 1, 3, 0, 10, 10, 10, 1, 0, 0, 1, 1, 0, 1, 2, 0, 3, 9, 0, 1, 0, 0, 4, 0, 0, 1, 0, 0, 3, 1, 0, 4, 1, 1, 1, 1, 0, 1, 2, 0, 3, 1, 0, 4, 2, 0, 1, 2, 0],
         [21, 0, 2, 60000, 0, 0, 1, 0, 0, 6, 30000, 0, 1, 1, 0, 6, 30000, 0, 1, 0, 0, 6, 30000, 0, 1, 1, 0],
         [17, 2, 1, 1500, 0, 1, 0, 0, 3, 1999, 0, 1, 0, 0, 3, 1, 0, 1, 0, 0],
+        # poll_ready at 0, call() + first poll at 8, timeout 10: the deadline is 18, not 10 (review-2 regression D1), both modes,
+        # fresh clone and same service value
+        [1, 0, 1, 10, 0, 7, 0, 0, 3, 8, 0, 1, 0, 0, 3, 2, 0, 1, 0, 0, 3, 8, 0, 1, 0, 0],
+        [4, 0, 1, 10, 0, 7, 0, 0, 3, 8, 0, 1, 0, 0, 3, 2, 0, 1, 0, 0, 3, 8, 0, 1, 0, 0],
+        [5, 1, 2, 0, 10, 20, 7, 0, 0, 7, 1, 0, 3, 8, 0, 5, 0, 0, 3, 2, 0, 1, 0, 0, 1, 1, 0, 3, 8, 0, 1, 0, 0, 3, 2, 0, 1, 0, 0, 3, 20, 0, 1, 1, 0],
+        # every call on a service value of its own, dropped right after call() (review-2 regression D2): non-cancel mode keeps
+        # the inner call running - result at 3, and completion after a Timeout; cancel mode for symmetry
+        [0, 4, 1, 10, 0, 1, 0, 0, 1, 0, 0, 3, 3, 0, 4, 0, 0, 1, 0, 0],
+        [0, 5, 2, 0, 5, 10, 5, 0, 0, 5, 1, 0, 1, 0, 0, 1, 1, 0, 3, 5, 0, 1, 0, 0, 3, 1, 0, 4, 0, 1, 3, 4, 0, 4, 1, 0, 1, 1, 0],
+        [1, 4, 1, 10, 0, 7, 0, 0, 1, 0, 0, 3, 3, 0, 4, 0, 0, 1, 0, 0],
         # microsecond unit: 1500 us armed at 0 fires at the 2 ms tick; 999 us armed at 1 us fires at 1 ms; zero timeout off the tick
         [1, 2, 1, 1500, 0, 1, 0, 0, 3, 1499, 0, 1, 0, 0, 3, 1, 0, 1, 0, 0, 3, 499, 0, 1, 0, 0, 3, 1, 0, 1, 0, 0],
         [0, 3, 2, 0, 999, 0, 3, 1, 0, 1, 0, 0, 3, 499, 0, 1, 1, 0, 3, 499, 0, 1, 0, 0, 1, 1, 0, 3, 1, 0, 1, 0, 0, 1, 1, 0],
@@ -306,9 +324,14 @@ def plan_script(rng, maxn=4, scale=None):
     items = []   # (time, tiebreak, event)
     for i in range(n):
         fp = rng.choice(fps)
+        tcall = fp
         if rng.random() < 0.4:
-            items.append((rng.randint(0, fp), rng.random(), (5, i, 0)))
-        items.append((fp, rng.random(), (1, i, 0)))
+            tcall = rng.randint(0, fp)
+            items.append((tcall, 0.5 + rng.random() / 2, (5, i, 0)))
+        if rng.random() < 0.3:
+            # poll_ready ahead of call(): at the same instant, a little earlier, or as early as possible
+            items.append((rng.choice([tcall, rng.randint(0, tcall), 0]), rng.random() / 2, (7, i, 0)))
+        items.append((fp, 1.0 + rng.random(), (1, i, 0)))
         never_fires = tm[i] >= 10 ** 10
         dl = fp + (rng.choice(fixed) if never_fires else tm[i])   # for a timer that never fires: just some instant to plan around
         late = tick_up(g, dl)
@@ -347,7 +370,7 @@ def plan_script(rng, maxn=4, scale=None):
         if rng.random() < 0.5:
             items.append((late + rng.choice(above + [above[-1] * 2]), 3.0, (1, i, 0)))
     items.sort(key=lambda x: (x[0], x[1]))
-    s = [cancel, dyn + (2 if g > 1 else 0), n, T] + per
+    s = [cancel, dyn + (2 if g > 1 else 0) + (4 if rng.random() < 0.25 else 0), n, T] + per
     now = 0
     for (t, _, e) in items:
         if t > now:
@@ -386,10 +409,12 @@ def random_script(rng, maxn=4, maxlen=30, scale=None):
         T = rng.choice([0, 1, 999, 1500, 2000, 10 ** 18])
         per = [rng.choice([0, 1, 500, 999, 1000, 1001, 1500, 2500]) for _ in range(n)]
         adv = [(3, x) for x in [1, 1, 499, 500, 500, 999, 1000, 1000, 1001]] + [(6, 500), (6, 1000)]
-    s = [cancel, dyn + (2 if scale == "us" else 0), n, T] + per
+    s = [cancel, dyn + (2 if scale == "us" else 0) + (4 if rng.random() < 0.25 else 0), n, T] + per
     for _ in range(rng.randint(3, maxlen)):
         x = rng.random()
-        if x < 0.45:
+        if x < 0.04:
+            s += [7, rng.randrange(n), 0]
+        elif x < 0.45:
             s += [1, rng.randrange(n), 0]
         elif x < 0.52:
             s += [2, rng.randrange(n), 0]
@@ -403,12 +428,14 @@ def random_script(rng, maxn=4, maxlen=30, scale=None):
     return s
 
 
-def exhaustive(depth, cancel, T=2, n=2, us=False):
+def exhaustive(depth, cancel, T=2, n=2, us=False, drop=False, ready=False):
     if us:
-        adv, head = [(3, 500, 0), (3, 1000, 0)], [cancel, 3, n, 0, 1500, 700]
+        adv, head = [(3, 500, 0), (3, 1000, 0)], [cancel, 3 + (4 if drop else 0), n, 0, 1500, 700]
     else:
-        adv, head = [(3, 1, 0), (3, 2, 0)], [cancel, 1, n, 0, T, 1]
+        adv, head = [(3, 1, 0), (3, 2, 0)], [cancel, 1 + (4 if drop else 0), n, 0, T, 1]
     alpha = [(1, i, 0) for i in range(n)] + [(2, 0, 0)] + adv + [(4, 0, 0), (4, 1, 1), (4, 0, 2)]
+    if ready:
+        alpha = [(7, 0, 0), (1, 0, 0), (5, 0, 0), (3, 1, 0), (3, 2, 0), (4, 0, 0)]
     for L in range(1, depth + 1):
         for evs in itertools.product(alpha, repeat=L):
             s = head[:4 + n]
@@ -422,13 +449,14 @@ def generate(rng, tier):
     if tier == "quick":
         out += [plan_script(rng) for _ in range(1800)]
         out += [random_script(rng) for _ in range(900)]
-        out += list(exhaustive(2, 0)) + list(exhaustive(2, 1)) + list(exhaustive(2, 5)) + list(exhaustive(2, 0, us=True)) + list(exhaustive(2, 1, us=True)) + list(exhaustive(2, 49)) + list(exhaustive(2, 48)) + list(exhaustive(2, 17, us=True))
+        out += list(exhaustive(2, 0)) + list(exhaustive(2, 1)) + list(exhaustive(2, 5)) + list(exhaustive(2, 0, us=True)) + list(exhaustive(2, 1, us=True)) + list(exhaustive(2, 49)) + list(exhaustive(2, 48)) + list(exhaustive(2, 17, us=True)) + list(exhaustive(3, 0, drop=True)) + list(exhaustive(3, 1, drop=True)) + list(exhaustive(3, 0, ready=True)) + list(exhaustive(3, 5, ready=True))
     else:
         out += [plan_script(rng, rng.choice([4, 4, 6])) for _ in range(40000)]
         out += [random_script(rng, rng.choice([4, 4, 6]), 50) for _ in range(20000)]
         out += list(exhaustive(5, 0)) + list(exhaustive(5, 1)) + list(exhaustive(4, 4)) + list(exhaustive(4, 5))
         out += list(exhaustive(5, 0, us=True)) + list(exhaustive(5, 1, us=True))
         out += list(exhaustive(4, 49)) + list(exhaustive(4, 48)) + list(exhaustive(4, 17, us=True))
+        out += list(exhaustive(5, 0, drop=True)) + list(exhaustive(4, 1, drop=True)) + list(exhaustive(6, 0, ready=True)) + list(exhaustive(5, 1, ready=True)) + list(exhaustive(5, 5, ready=True))
     return out
 
 
@@ -482,6 +510,24 @@ def classify(s, t):
            "unit_us" if tick_of(s) > 1 else "unit_ms", "handle_" + ["fresh_clone", "same_value", "clone_of_clone", "two_handles"][handle_mode(s)]]
     if hungry_mask(s) & ((1 << n) - 1):
         out.append("hungry_inner")
+    if len(s) > 1 and (max(0, s[1]) >> 2) & 1:
+        out.append("service_dropped_after_call")
+    body, now, rdy, gap, saw = s[4 + n:], 0, {}, False, False
+    for k in range(0, len(body) - len(body) % 3, 3):
+        op, a, b = body[k:k + 3]
+        if op in (3, 6):
+            now += max(0, a)
+        elif op == 7 and 0 <= a < n:
+            saw = True
+            rdy.setdefault(a, now)
+        elif op in (1, 2, 5) and 0 <= a < n:
+            if a in rdy and rdy[a] is not None and rdy[a] < now:
+                gap = True
+            rdy[a] = None
+    if saw:
+        out.append("ready_op")
+    if gap:
+        out.append("ready_earlier_than_call")
     if any(BIG <= x for x in tm):
         out.append("duration_max")
     if any(10 ** 10 <= x < BIG for x in tm):
@@ -536,6 +582,8 @@ def shrink(s):
     k = len(body) // 3
     for i in range(k):
         yield head + body[:3 * i] + body[3 * i + 3:]
+    if len(head) > 1 and head[1] >= 4:
+        yield [head[0], head[1] % 4] + head[2:] + body   # keep a service handle alive
     if head and head[0] >= 16:
         yield [head[0] % 16] + head[1:] + body          # no budget-hungry inner calls
     if head and (head[0] >> 2) & 3:
